@@ -835,6 +835,16 @@ func driveXbinary(opt *Options) error {
 	}
 	if opt.Extra["mode"] != "c16" {
 		driveBigBodies(tw, rnd)
+		if opt.Extra["huge"] != "0" {
+			driveHugeBodies(tw, rnd)
+		}
+		nb := 40000000
+		if s, ok := opt.Extra["bulk"]; ok {
+			fmt.Sscan(s, &nb)
+		}
+		driveBulkStrings(tw, rnd, nb)
+	} else {
+		driveBulkStrings(tw, rnd, 40000000)
 	}
 	for t := 0; t < opt.N; t++ {
 		tw.Emit(map[string]any{"op": "Reset"})
@@ -1153,6 +1163,138 @@ func driveBigBodies(tw *TraceWriter, rnd *rand.Rand) {
 			tw.Emit(ev)
 		}
 	}
+}
+
+// cmpWriter compares what is written with the expected bytes without storing anything.
+type cmpWriter struct {
+	want []byte
+	pos  int
+	ok   bool
+}
+
+func (w *cmpWriter) Write(p []byte) (int, error) {
+	if w.pos+len(p) > len(w.want) || !bytes.Equal(p, w.want[w.pos:w.pos+len(p)]) {
+		w.ok = false
+	}
+	w.pos += len(p)
+	return len(p), nil
+}
+
+// driveHugeBodies: bodies around 2^28 bytes - the last boundary of the length prefix (4 / 5 bytes) a process can
+// reasonably hold.  Two buffers of 256 MiB, nothing else is copied.  Same "Big" summary line as driveBigBodies.
+func driveHugeBodies(tw *TraceWriter, rnd *rand.Rand) {
+	body := make([]byte, 1<<28+1)
+	rnd.Read(body[:4096])
+	rnd.Read(body[len(body)-4096:])
+	buf := make([]byte, len(body)+16)
+	for _, ln := range []int{1<<28 - 1, 1 << 28, 1<<28 + 1} {
+		for _, asString := range []bool{false, true} {
+			b := body[:ln]
+			ev := map[string]any{"op": "Big", "len": ln, "string": asString, "panic": false, "shift": true}
+			func() {
+				defer func() {
+					if p := recover(); p != nil {
+						ev["panic"] = true
+					}
+				}()
+				var str string
+				if asString {
+					str = unsafe.String(unsafe.SliceData(b), len(b)) // (no copy; b is not modified while str lives)
+				}
+				var psize, n int
+				var err, serr error
+				if asString {
+					psize = xbinary.WritableStringSize(str)
+				} else {
+					psize = xbinary.WritebleBytesSize(b)
+				}
+				ev["psize"] = psize
+				if psize < 1 || psize > len(buf) {
+					return
+				}
+				if asString {
+					_, serr = xbinary.MarshalString(str, buf[:psize-1])
+					n, err = xbinary.MarshalString(str, buf[:psize])
+				} else {
+					_, serr = xbinary.MarshalBytes(b, buf[:psize-1])
+					n, err = xbinary.MarshalBytes(b, buf[:psize])
+				}
+				if err != nil {
+					n = -1
+				}
+				ev["n"], ev["shortfails"] = n, serr != nil
+				cw := &cmpWriter{want: buf[:psize], ok: true}
+				ow := &xbinary.ObjectsWriter{Writer: cw}
+				var nw int
+				if asString {
+					nw, _ = ow.WriteString(str)
+				} else {
+					nw, _ = ow.WriteBytes(b)
+				}
+				ev["nw"] = nw
+				consumed, got, derr := xbinary.UnmarshalBytes(buf[:psize], false)
+				ev["consumed"] = consumed
+				ev["rt"] = derr == nil && bytes.Equal(got, b) && cw.ok && cw.pos == psize
+			}()
+			for _, k := range []string{"psize", "n", "nw", "consumed"} {
+				if _, ok := ev[k]; !ok {
+					ev[k] = -1
+				}
+			}
+			for _, k := range []string{"rt", "shortfails"} {
+				if _, ok := ev[k]; !ok {
+					ev[k] = false
+				}
+			}
+			tw.Emit(ev)
+		}
+	}
+}
+
+// driveBulkStrings: tens of millions of DISTINCT short strings and byte strings decoded one after the other (newBuf =
+// true and false): whatever a decoder remembers between calls (a cache, an interning table, a pooled buffer) must not
+// make one value come back as another.  One summary line.
+func driveBulkStrings(tw *TraceWriter, rnd *rand.Rand, n int) {
+	ev := map[string]any{"op": "Bulk", "n": n, "bad": 0, "panic": false}
+	func() {
+		defer func() {
+			if p := recover(); p != nil {
+				ev["panic"] = true
+			}
+		}()
+		const alpha = "abcdefghijklmnopqrstuvwxyz"
+		buf := make([]byte, 32)
+		bad := 0
+		x := rnd.Uint64() | 1
+		for i := 0; i < n; i++ {
+			x ^= x << 13
+			x ^= x >> 7
+			x ^= x << 17
+			ln := 6 // strings: all of one length (a table that compares lengths only gets every chance to mix them up)
+			if i&1 == 1 {
+				ln = 3 + int(x>>60)%6 // byte strings: 3..8 letters
+			}
+			buf[0] = byte(ln)
+			y := x
+			for j := 1; j <= ln; j++ {
+				buf[j] = alpha[y%26]
+				y /= 26
+			}
+			if i&1 == 0 {
+				c, str, err := xbinary.UnmarshalString(buf[:1+ln], true)
+				if err != nil || c != 1+ln || str != string(buf[1:1+ln]) {
+					bad++
+				}
+			} else {
+				c, b, err := xbinary.UnmarshalBytes(buf[:1+ln], true)
+				if err != nil || c != 1+ln || !bytes.Equal(b, buf[1:1+ln]) {
+					bad++
+				}
+			}
+		}
+		ev["bad"] = bad
+	}()
+	tw.Emit(ev)
 }
 
 // driveLongRuns: inputs of 16 MiB made of continuation bytes (an endless varint, also as the length prefix of a
